@@ -1,5 +1,6 @@
 import TantivyModel.Driver.Proto
 import TantivyModel.Model.GC
+import TantivyModel.Driver.C01
 /-!
 Line protocol of the C10 model.
 
@@ -7,6 +8,9 @@ Line protocol of the C10 model.
         lists are comma separated path numbers (`-` = empty), `<live>` = `/`-separated file lists
         of the live metas (path 0 = meta.json is always living);
         → `<dir'>|<managed'>|<deleted>|<failed>` (each sorted)
+  `reg <tok>…`                           a storage log in the token format of `Driver/C01.lean` (with the
+        `.managed.json` payloads' path lists): index of the first operation that breaks R1–R3
+        (`GC.regOK`), or `ok`
   `steps <dir> <managed> <live> <fails>` the same through the small-step events (`fullGCSteps`),
         → same format, plus `|safe` / `|unsafe` (discipline of the generated events)
 -/
@@ -25,7 +29,18 @@ def showSt (s : St) : String :=
 def mk (dir managed : List Nat) (live : List (List Nat)) : St :=
   { dir := dir, managed := managed, live := live, pending := none, deleted := [], failed := [] }
 
+def regWalk : Storage.Dir → List Driver.C01.Tok → Nat → Option Nat
+  | _, [], _ => none
+  | s, .op o :: ts, i => if regOK s o then regWalk (s.step o) ts (i + 1) else some i
+  | s, _ :: ts, i => regWalk s ts (i + 1)
+
 def handle : List String → String
+  | "reg" :: toks =>
+    match toks.mapM Driver.C01.parseTok with
+    | none => "bad-op"
+    | some ts => match regWalk Storage.Dir.empty ts 0 with
+      | none => "ok"
+      | some i => toString i
   | ["gc", d, m, l, f] =>
     match natList d, natList m, liveLists l, natList f with
     | some d, some m, some l, some f => showSt (fullGC (mk d m l) f)
